@@ -6,6 +6,7 @@ oracle_c17 — line protocol. A key token is `<ty>:<value>:<hash>` with `ty` one
 u8 i8 i16 u16 i32 u32 i64 u64 int uint hit (decimal value) | str bytes bs (hex bytes) | other (value 0),
 and `hash` = the key's xxhash as computed by the real package (xxhash itself is not modelled).
   `reset`                                 → `ok`
+  `firstuse <n> <rounds> <threads>`       → `ok`                 concurrent first users of a fresh router (child process)
   `remap <n>`                             → `ok` | `panic` (n = 0: division by zero)
   `search <x>`                            → `<index>`            SearchIndex
   `simple <key>` / `xhash <key>`          → `<index>` | `panic`  SimpleIndex / XHashIndex
@@ -119,8 +120,13 @@ def parseApi (s : String) : Option (Bool × Bool) :=
 def step (st : St) (line : String) : St × String :=
   match words line with
   | ["reset"] => (.none, "ok")
+  | ["firstuse", n, r, t] =>
+    -- concurrent first users of a fresh router: routing does not depend on who comes first (the model has no such state)
+    match parseN n, (if isDecimal r && r.length ≤ 9 then r.toNat? else none), (if isDecimal t && t.length ≤ 9 then t.toNat? else none) with
+    | some n, some r, some t => if n = 0 ∨ r < 1 ∨ r > 200 ∨ t < 2 ∨ t > 16 then (st, "bad-op") else (st, "ok")
+    | _, _, _ => (st, "bad-op")
   | ["wl", kind, cap, n, r] =>
-    match parseN n, (if isDecimal cap && cap.length ≤ 6 then cap.toNat? else none) with
+    match parseN n, (if isDecimal cap && cap.length ≤ 19 then cap.toNat?.bind (fun c => if c < 2 ^ 63 then some c else none) else none) with
     | some n, some cap =>
       if n = 0 ∨ n > 4096 ∨ ¬ (r == "simple" || r == "xhash") ∨ ¬ (kind == "lru" || kind == "tlru") then (st, "bad-op")
       else (.wl (if kind == "lru" then .sized else .tiny) n (r == "xhash")
